@@ -21,7 +21,7 @@ REQUIRED = ["state_dict_roundtrip", "pickle_roundtrip", "deepcopy_roundtrip", "o
 ASSUMPTIONS = ["pickle/deepcopy of an object are compared with the original at 1e-9 (caches may be recomputed), state_dict round trip at 1e-7"]
 ANCHOR_FILES = ["gpytorch/module.py", "gpytorch/models/", "gpytorch/kernels/", "gpytorch/priors/", "gpytorch/constraints/", "gpytorch/variational/"]
 
-FAMS = ["default", "batch", "mt_kronecker", "ski", "ski_dynamic_grid", "sgpr", "svgp_whitened", "svgp_unwhitened", "svgp_meanfield", "svgp_batch_decoupled", "lmc_multitask", "priors", "rff", "rff_lazy", "natural", "svgp_fixed_inducing", "modellist"]
+FAMS = ["default", "batch", "mt_kronecker", "hadamard_two_inputs", "ski", "ski_dynamic_grid", "sgpr", "svgp_whitened", "svgp_unwhitened", "svgp_meanfield", "svgp_batch_decoupled", "lmc_multitask", "priors", "rff", "rff_lazy", "natural", "svgp_fixed_inducing", "modellist"]
 SAVE_OPS = ["pred", "pred_fpv", "train_step", "load_sd", "train_eval", "set_data", "pred_nodetach", "prior"]
 VAR_SAVE_OPS = ["pred", "pred_batch", "train_step", "load_sd", "train_eval", "prior"]
 VARF = {"svgp_fixed_inducing", "svgp_whitened", "svgp_unwhitened", "svgp_meanfield", "svgp_batch_decoupled", "lmc_multitask", "natural"}
@@ -181,7 +181,7 @@ def _observe(fam, m):
         out["post"] = H.predict(m, fam.xs)
         if fam.exact:
             with S.prior_mode(True):
-                o = m(fam.xs)
+                o = H.call(m, fam.xs)
         else:
             o = m(fam.xs, prior=True)
         out["prior"] = (o.mean.clone(), o.covariance_matrix.clone())
@@ -247,7 +247,7 @@ def run_case(case, ctx):
             finally:
                 fam.alt = False
             if fam.exact:
-                fr.set_train_data(m.train_inputs[0], m.train_targets, strict=False)
+                fr.set_train_data(H.train_inputs_of(m), m.train_targets, strict=False)
             sd = copy.deepcopy(m.state_dict())
             buf = io.BytesIO()
             torch.save(sd, buf)
@@ -312,7 +312,7 @@ def run_case(case, ctx):
             finally:
                 fam.alt = False
             if fam.exact:
-                fr2.set_train_data(m.train_inputs[0], m.train_targets, strict=False)
+                fr2.set_train_data(H.train_inputs_of(m), m.train_targets, strict=False)
             for mod in fr2.modules():
                 if hasattr(mod, "variational_params_initialized"):
                     mod.variational_params_initialized.fill_(1)
